@@ -249,6 +249,48 @@ def run(P, rep, tier):
                     if depends_on(f, rhs, names, depth + 1):
                         return True
         return False
+    # start-position arrays: members indexed both as F[i] and F[i + 1] somewhere in the decoder (start of this / of the next tile)
+    idx_forms = {}
+    for g in dec:
+        for ev in g.events():
+            e = ev.get('e')
+            if e is None:
+                continue
+            for x in subexprs(e):
+                if x[0] == 'i' and strip(x[1])[0] == 'm':
+                    ix = strip(x[2])
+                    idx_forms.setdefault(strip(x[1])[1], set()).add('next' if (ix[0] == 'b' and ix[1] == '+' and strip(ix[3])[0] == 'l' and strip(ix[3])[1] == 1) else 'this')
+    POSARR = {k for k, v in idx_forms.items() if v == {'this', 'next'}}
+
+    def frame_of(f, e, depth):
+        """{'ABS'} / {'REL'} / both / empty: does the expression carry an absolute position or a difference of two positions"""
+        e = strip(e)
+        out = set()
+        if not e or depth > 14:
+            return out
+        if e[0] == 'b' and e[1] == '-':
+            l, r = frame_of(f, e[2], depth + 1), frame_of(f, e[3], depth + 1)
+            if 'ABS' in l and 'ABS' in r:
+                return {'REL'}
+            return l | r
+        if e[0] == 'i' and strip(e[1])[0] == 'm' and strip(e[1])[1] in POSARR:
+            return {'ABS'}
+        if e[0] == 'v' and e[2] == 'l':
+            for d in f.events(('decl', 'st')):
+                x = d.get('e')
+                rhs = x if (d['k'] == 'decl' and d['n'] == e[1]) else (x[3] if (d['k'] == 'st' and x is not None and x[0] == 'a' and x[1] == '=' and strip(x[2]) == e) else None)
+                if rhs is not None:
+                    out |= frame_of(f, rhs, depth + 1)
+            return out
+        for k in ('b', 'q', 'u', 'c'):
+            pass
+        if e[0] == 'b':
+            return frame_of(f, e[2], depth + 1) | frame_of(f, e[3], depth + 1)
+        if e[0] == 'q':
+            return frame_of(f, e[1], depth + 1) | frame_of(f, e[2], depth + 1) | frame_of(f, e[3], depth + 1)
+        if e[0] == 'u':
+            return frame_of(f, e[2], depth + 1)
+        return out
     nprog = 0
     for f in dec:
         if f not in C.runtime:
@@ -307,6 +349,14 @@ def run(P, rep, tier):
                     # wait may be conditional - the first row has no row above)
                     if not (ev.get('l', 0) > b.get('tl', 0)):
                         problems.append('publication (line %s) precedes the wait (line %s) in the loop body' % (ev.get('l'), b.get('tl')))
+                # coordinate frame: the progress values are absolute superblock columns when the loop iterator starts at a
+                # position taken from a start-position array (tile_col_start_mi[..]); then every arm of the bound must be absolute
+                # as well - a tile-relative length (difference of two entries of that array) releases the wait too early for every
+                # tile column but the first
+                fr_v = set().union(*[frame_of(f, v, 0) for _, v in same]) if same else set()
+                fr_b = frame_of(f, cc[3], 0)
+                if 'ABS' in fr_v and 'REL' in fr_b:
+                    problems.append('published values are absolute superblock columns but the bound %s contains a tile-relative length (a difference of two start positions): for tile columns > 0 the wait ends before the row above has reached the neighbour' % pstr(cc[3])[:60])
                 rep.ob('C09.PROGRESS', key, not problems, where,
                        ('wavefront: wait on *%s < %s and publication %s sit in the loop at line %s and advance with its iterator' % (p, pstr(cc[3])[:40], ', '.join(pstr(v)[:20] for _, v in same), wl[1] if wl else '?'))
                        if not problems else '; '.join(problems))
